@@ -176,6 +176,7 @@ def run_case(case, ctx):
     transitions = set()
     schedules = set()
     n_exec = 0
+    virt = [0, 0]
     maxlen = 0
     complete = False
     prefix = []
@@ -220,6 +221,8 @@ def run_case(case, ctx):
             return {'inconclusive': 'instrumentation not reached: %d queues, %d scheduled operations, %d recorded writes' % (len(S.queues), len(S.trace), len(rec.py)),
                     'counters': {'executions': 0}}
         n_exec += 1
+        virt[0] += S.timeouts_fired
+        virt[1] += S.timed_waits
         maxlen = max(maxlen, len(S.trace))
         schedules.add(hash(tuple(S.trace)))
         sched_txt = ' '.join('%s.%s' % (a[:4], b2) for a, b2 in S.trace[-40:])
@@ -258,7 +261,7 @@ def run_case(case, ctx):
     if complete:
         strata.append('dfs-complete')
     counters = {'executions': n_exec, 'abstract_states': len(visited), 'transitions': len(transitions), 'distinct_schedules': len(schedules),
-                'schedule_len_max': maxlen, 'dfs_complete': 1 if complete else 0, 'dfs_incomplete': 1 if case['mode'] == 'dfs' and not complete else 0}
+                'schedule_len_max': maxlen, 'virtual_timeouts_fired': virt[0], 'timed_condition_waits': virt[1], 'dfs_complete': 1 if complete else 0, 'dfs_incomplete': 1 if case['mode'] == 'dfs' and not complete else 0}
     return {'violations': bad, 'counters': counters, 'strata': strata, 'key': case['id'], 'nontrivial': n_exec > 0,
             'summary': {'id': case['id'], 'executions': n_exec, 'states': len(visited), 'transitions': len(transitions), 'schedules': len(schedules),
                         'complete': complete, 'wall': round(time.time() - t_start, 1)}}
